@@ -123,6 +123,20 @@ def run(ctx):
     open(ph, "w").write("".join(json.dumps(c) + "\n" for c in hugec))
     tr3 = ctx.drive(drive, ["--cases", ph, "--n", "0"], "trace-huge.ndjson")
     ctx.monitor("mon-huge", "C01", "Trace_C01.tla", "Trace_C01.cfg", tr3, nontrivial=nontrivial, cover=cover, timeout=3000)
+    # the carries Toom-3 parks between its partial sums and applies at the end: a search over block-structured operands, guided by
+    # the library's rare-branch counters (hook: integer/src/verif_probe.rs), until each of the four has run through a whole
+    # block in at least two products; those products are validated like all others
+    if fw.has_probe():
+        trp = ctx.drive(drive, ["--seed", str(ctx.seed + 9), "--n", "0", "--probe-search", str(ctx.pick(3000000, 12000000)),
+                                str(ctx.pick(2, 8))], "trace-probe.ndjson")
+        summ = json.load(open(trp + ".probe"))
+        ctx.scope["toom3_carry_search"] = summ
+        for kpt in summ["kept"]:
+            if kpt["n"] > 0:
+                ctx.cover["probe:" + kpt["name"]] = ctx.cover.get("probe:" + kpt["name"], 0) + kpt["n"]
+        ctx.monitor("mon-probe", "C01", "Trace_C01.tla", "Trace_C01.cfg", trp, nontrivial=nontrivial, cover=cover, timeout=3000)
+    else:
+        ctx.notes.append("the source tree has no rare-branch counters (integer/src/verif_probe.rs): the Toom-3 carry search is skipped")
     # impl -> spec: seeded random operands, unbalanced sizes
     n = ctx.pick(1500, 12000)
     tr2 = ctx.drive(drive, ["--seed", str(ctx.seed), "--n", str(n), "--max-words", str(ctx.pick(40, 70))], "trace-rnd.ndjson")
@@ -134,7 +148,8 @@ def run(ctx):
                     "against BigInt (Trace_C01).",
         required_cover=["op:add", "op:sub", "op:mul", "op:sqr", "op:cubic", "op:pow", "mul:schoolbook", "mul:karatsuba", "mul:toom3",
                         "carry-grows", "cancel-shrinks", "heap-to-inline", "panic", "primitive-forms",
-                        "types:UU", "types:II", "types:UI", "types:IU"])
+                        "types:UU", "types:II", "types:UI", "types:IU"] +
+                       (["probe:toom3:carry-c%d-propagates" % k for k in range(4)] if fw.has_probe() else []))
 
 
 def selftest(ctx):
